@@ -129,7 +129,8 @@ def compile_col_expr(
     if isinstance(expr, Col):
         if expr._uuid in name_in_df:
             return pl.col(name_in_df[expr._uuid])
-        return expr.export(Polars)
+        # a column of another table (only allowed inside `eval_aligned`)
+        return pl.lit(expr.export(Polars))
 
     elif isinstance(expr, ColFn):
         impl = PolarsImpl.get_impl(expr.op, tuple(arg.dtype() for arg in expr.args))
@@ -141,7 +142,9 @@ def compile_col_expr(
         if (
             expr.op.ftype in (Ftype.AGGREGATE, Ftype.WINDOW)
             and len(args) > 0
-            and not any(isinstance(node, Col) for node in expr.args[0].iter_subtree_postorder())
+            and not any(
+                isinstance(node, Col | EvalAligned | Series) for node in expr.args[0].iter_subtree_postorder()
+            )
         ):
             # a literal is a single value for polars: aggregating or shifting it must see
             # one value per row (of the group)
@@ -261,10 +264,12 @@ def compile_col_expr(
         return compiled
 
     elif isinstance(expr, EvalAligned):
+        if expr._uuid in name_in_df:
+            return pl.col(name_in_df[expr._uuid])
         return compile_col_expr(expr.val, name_in_df, op_kwargs)
 
     elif isinstance(expr, Series):
-        return expr.val
+        return pl.lit(expr.val)
 
     raise AssertionError
 
@@ -323,6 +328,24 @@ def compile_ast(
             name_in_df,
             names_to_consider=names_to_consider,
         )
+
+    aligned = {}
+    if isinstance(nd, verbs.Mutate | verbs.Filter | verbs.Arrange | verbs.Summarize):
+        # Values given through `eval_aligned` are attached as temporary columns, so that
+        # grouping, window and aggregation functions treat them like any other column
+        # (a literal series is not split into groups by polars).
+        for expr in nd.iter_col_nodes():
+            if isinstance(expr, EvalAligned) and expr._uuid not in aligned:
+                aligned[expr._uuid] = f"__aligned_{expr._uuid.hex}__"
+        if aligned:
+            df = df.with_columns(
+                **{
+                    aligned[expr._uuid]: compile_col_expr(expr.val, name_in_df)
+                    for expr in nd.iter_col_nodes()
+                    if isinstance(expr, EvalAligned)
+                }
+            )
+            name_in_df = name_in_df | aligned
 
     if isinstance(nd, verbs.Select):
         select = [col._uuid for col in nd.select]
@@ -520,6 +543,10 @@ def compile_ast(
         name_in_df = {col._uuid: col.name for col in nd.cols.values()}
         select = list(name_in_df.keys())
         partition_by = []
+
+    if aligned and not isinstance(nd, verbs.Summarize):
+        df = df.drop(aligned.values())
+        name_in_df = {uid: name for uid, name in name_in_df.items() if uid not in aligned}
 
     return df, name_in_df, select, partition_by
 
